@@ -530,6 +530,277 @@ pub fn check_live(case: &Case, st: &mut Stats) -> Result<(), String> {
     })
 }
 
+// ---------------------------------------------------------------------------------------------
+// dial_target: which addresses a live validator node dials (the `maintain_connection` loops)
+
+#[derive(Debug, Clone, Serialize, Deserialize, Hash)]
+pub struct DialCase {
+    /// Announcements: `port - 1000` selects one of the harness' listeners; `altered` redirects to the trap listener after signing.
+    batches: Vec<Vec<Ann>>,
+    /// What the listener does with the k-th connection it receives: 0 = close, 1.. = complete the validator handshake as identity (x - 1) % 4 + 1 and hold briefly.
+    responders: Vec<u8>,
+}
+
+const LISTENERS: usize = 6; // 0..5 ordinary, 5 = trap (only altered announcements name it)
+
+pub fn gen_dial(ch: &mut Choices) -> DialCase {
+    // identity 0 is the node itself (it announces its own address through its loopback connection): never announced by the peer;
+    // 1, 2 = the other members, 3, 4 = outsiders
+    let nb = 2 + ch.below(7);
+    let mut batches = vec![];
+    let mut all: Vec<Ann> = vec![];
+    let mut version = 0u64;
+    for _ in 0..nb {
+        let k = 1 + ch.below(4);
+        let mut b: Vec<Ann> = vec![];
+        for _ in 0..k {
+            let key = ch.weighted(&[(5, 1usize), (5, 2), (1, 3), (1, 4)]);
+            if ch.chance(2, 3) {
+                version += 1;
+            }
+            let forged = ch.chance(1, 12);
+            let mut a = Ann {
+                key,
+                signed_by: if forged { 1 + (key + ch.below(3)) % 4 } else { key },
+                version: if ch.chance(1, 6) { ch.pick(&[0u64, 1, 2, u64::MAX]) } else { version },
+                ts: ch.below(7),
+                port: 1000 + ch.below(LISTENERS - 1) as u16,
+                altered: ch.chance(1, 12),
+            };
+            if ch.chance(1, 10) && !all.is_empty() {
+                a = ch.pick(&all); // stale replay
+            }
+            if ch.chance(1, 12) && !b.is_empty() {
+                a.key = ch.pick(&b).key; // duplicated key inside the batch
+                a.signed_by = a.key;
+            }
+            all.push(a.clone());
+            b.push(a);
+        }
+        batches.push(b);
+    }
+    let responders = (0..12).map(|_| ch.below(6) as u8).collect();
+    DialCase { batches, responders }
+}
+
+fn build_dial(keys: &[validator::SecretKey], addrs: &[std::net::SocketAddr], a: &Ann) -> Arc<validator::Signed<validator::NetAddress>> {
+    let ts = timestamps();
+    let msg = validator::NetAddress { addr: addrs[(a.port as usize - 1000) % (LISTENERS - 1)], version: a.version, timestamp: ts[a.ts % ts.len()] };
+    let mut s = keys[a.signed_by].sign_msg(msg);
+    s.key = keys[a.key].public();
+    if a.altered {
+        s.msg.addr = addrs[LISTENERS - 1];
+    }
+    Arc::new(s)
+}
+
+pub fn check_dial(case: &DialCase, st: &mut Stats) -> Result<(), String> {
+    use std::sync::Mutex;
+
+    use rand::SeedableRng as _;
+    use zksync_concurrency::{ctx, limiter, scope};
+    use zksync_consensus_engine::{testonly::in_memory, EngineManager};
+    use zksync_consensus_network::{
+        testonly::Instance,
+        verif::{self as hook, Mux, MuxConfig, NoiseTcp},
+    };
+    let rt = tokio::runtime::Builder::new_current_thread().enable_all().build().unwrap();
+    rt.block_on(async {
+        let ctx = &ctx::root();
+        let rng = &mut rand::rngs::StdRng::seed_from_u64(15);
+        let setup = validator::testonly::Setup::new(rng, 3);
+        let setup = &setup;
+        let mut keys: Vec<validator::SecretKey> = setup.validator_keys.clone();
+        keys.extend(gen::val_keys().iter().take(2).cloned());
+        let keys = &keys;
+        let nk = gen::node_keys();
+        let node_pub = nk[9].public();
+        let node_pub = &node_pub;
+        let st2 = &mut *st;
+        // (listener index, consensus endpoint?) of every connection that reached a harness listener, in arrival order
+        let seen: Arc<Mutex<Vec<(usize, bool)>>> = Default::default();
+        // identities proven to the node by a responder, with the listener on which that happened
+        let proven: Arc<Mutex<Vec<(usize, usize)>>> = Default::default();
+        let res: Result<(), String> = scope::run!(ctx, |ctx, s| async move {
+            let st = st2;
+            let mut addrs = vec![];
+            let responders = Arc::new(case.responders.clone());
+            let served = Arc::new(std::sync::atomic::AtomicUsize::new(0));
+            for li in 0..LISTENERS {
+                let mut l = hook::TcpListener::bind().await.map_err(|e| format!("INFRA: bind: {e:#}"))?;
+                addrs.push(l.addr());
+                let (seen, proven, responders, served) = (seen.clone(), proven.clone(), responders.clone(), served.clone());
+                s.spawn_bg(async move {
+                    while let Ok(tcp) = l.accept(ctx).await {
+                        let k = served.fetch_add(1, std::sync::atomic::Ordering::SeqCst);
+                        let r = responders[k % responders.len()];
+                        match NoiseTcp::preface_accept(ctx, tcp).await {
+                            Ok((mut stream, consensus)) => {
+                                seen.lock().unwrap().push((li, consensus));
+                                if consensus && r > 0 {
+                                    let id = (r as usize - 1) % 4 + 1;
+                                    if hook::consensus::handshake_inbound(ctx, &keys[id], setup.genesis.hash(), &mut stream).await.is_ok() {
+                                        proven.lock().unwrap().push((id, li));
+                                        tokio::time::sleep(std::time::Duration::from_millis(25)).await;
+                                    }
+                                }
+                            }
+                            Err(_) => seen.lock().unwrap().push((li, false)),
+                        }
+                    }
+                    Ok(())
+                });
+            }
+            let addrs = &addrs;
+            let eng = in_memory::Engine::new_random(setup, setup.first_block());
+            let (mgr, run) = EngineManager::new(ctx, Box::new(eng), time::Duration::seconds(60)).await.map_err(|e| format!("INFRA: EngineManager::new: {e:?}"))?;
+            s.spawn_bg(async { run.run(ctx).await.map_err(|e| format!("INFRA: engine runner: {e:#}")) });
+            let mut cfg = crate::c12::gossip_cfg(&nk[9]);
+            let listen = zksync_concurrency::net::tcp::testonly::reserve_listener();
+            cfg.server_addr = listen;
+            cfg.public_addr = (*listen).into();
+            cfg.validator_key = Some(keys[0].clone());
+            cfg.rpc.push_validator_addrs_rate = limiter::Rate::INF;
+            let addr: std::net::SocketAddr = *listen;
+            let (node, runner) = Instance::new(cfg, mgr);
+            let node = &node;
+            s.spawn_bg(async move {
+                let _ = runner.run(ctx).await;
+                Ok(())
+            });
+            let mut up = false;
+            for _ in 0..500 {
+                if let Ok(c) = tokio::net::TcpStream::connect(addr).await {
+                    drop(c);
+                    up = true;
+                    break;
+                }
+                tokio::time::sleep(std::time::Duration::from_millis(5)).await;
+            }
+            if !up {
+                return Err("INFRA: the node did not start listening within 2.5 s".into());
+            }
+            let table = hook::rpc_table();
+            let push_cap = table.iter().find(|t| t.0 == "push_validator_addrs").map(|t| t.1).unwrap();
+            let mut model: BTreeMap<usize, Ann> = BTreeMap::new();
+            // per member: the listener it was dialled at last (the address the dial loop holds)
+            let mut last_dialled: BTreeMap<usize, usize> = BTreeMap::new();
+            // per member: every listener that ever was its stored address
+            let mut ever: std::collections::BTreeSet<(usize, usize)> = Default::default();
+            let mut conn: Option<hook::MuxQueue> = None;
+            let mut identity = 0usize;
+            let mut checked = 0usize;
+            let (mut refused, mut accepted, mut dials, mut redirected) = (0u64, 0u64, 0u64, 0u64);
+            let listener_of = |a: &Ann| if a.altered { LISTENERS - 1 } else { (a.port as usize - 1000) % (LISTENERS - 1) };
+            for (bi, batch) in case.batches.iter().enumerate() {
+                if conn.is_none() {
+                    let mut mine = NoiseTcp::preface_connect(ctx, addr, false).await.map_err(|e| format!("INFRA: preface_connect: {e:?}"))?;
+                    let pcfg = crate::c12::gossip_cfg(&nk[identity % 8]);
+                    identity += 1;
+                    hook::gossip::handshake_outbound(ctx, &pcfg, setup.genesis.hash(), &mut mine, node_pub).await.map_err(|e| format!("INFRA: handshake of the scripted peer: {e}"))?;
+                    let mut m = Mux::new(MuxConfig::rpc());
+                    let q = m.accept(ctx, push_cap, 1, limiter::Rate::INF);
+                    s.spawn_bg(async move {
+                        let _ = m.run(ctx, mine).await;
+                        Ok(())
+                    });
+                    conn = Some(q);
+                }
+                let mut req = vec![];
+                for a in batch {
+                    req.extend(crate::c19::pb_len(1, &zksync_protobuf::encode(&*build_dial(keys, addrs, a))));
+                }
+                let mut call = match tokio::time::timeout(std::time::Duration::from_secs(10), conn.as_ref().unwrap().open(ctx)).await {
+                    Ok(Ok(c)) => c,
+                    _ => return Err("INFRA: the node did not open a push_validator_addrs sub-stream within 10 s".into()),
+                };
+                let _ = call.write_all(ctx, &crate::c19::rpc_frame(&req)).await;
+                let _ = call.flush(ctx).await;
+                call.close_write();
+                let resp = tokio::time::timeout(std::time::Duration::from_secs(10), call.read_exact(ctx, 4)).await.map_err(|_| format!("INFRA: batch {bi} was neither acknowledged nor refused within 10 s"))?;
+                let acked = matches!(&resp, Ok(h) if h.len() == 4);
+                let _ = model_update(&mut model, 3, batch);
+                if acked {
+                    accepted += 1;
+                } else {
+                    refused += 1;
+                    conn = None;
+                }
+                // dials this batch must cause: one per member (other than the node) whose stored address differs from the one its dial loop holds
+                let mut expect: Vec<usize> = vec![];
+                for v in 1..3usize {
+                    if let Some(a) = model.get(&v) {
+                        let li = listener_of(a);
+                        ever.insert((v, li));
+                        if last_dialled.get(&v) != Some(&li) {
+                            if last_dialled.contains_key(&v) {
+                                redirected += 1;
+                            }
+                            last_dialled.insert(v, li);
+                            expect.push(li);
+                        }
+                    }
+                }
+                expect.sort();
+                // wait for them (a missing dial is not judged: the property is about where the node dials, not when)
+                let mut waited = 0;
+                while seen.lock().unwrap().len() < checked + expect.len() && waited < 1000 {
+                    tokio::time::sleep(std::time::Duration::from_millis(5)).await;
+                    waited += 1;
+                }
+                // a little longer, for a dial that must not happen
+                tokio::time::sleep(std::time::Duration::from_millis(if expect.is_empty() { 15 } else { 8 })).await;
+                let new: Vec<(usize, bool)> = seen.lock().unwrap()[checked..].to_vec();
+                checked += new.len();
+                let mut got: Vec<usize> = new.iter().map(|x| x.0).collect();
+                got.sort();
+                for (li, consensus) in &new {
+                    if !expect.contains(li) {
+                        let whose = if *li == LISTENERS - 1 { "the address of an announcement that was altered after signing".to_string() } else { format!("listener {li}, which is not the address of the newest valid announcement of any validator whose address changed") };
+                        return Err(format!("batch {bi}: the node dialled {whose} (expected dials {expect:?}, observed {got:?}; consensus endpoint: {consensus})"));
+                    }
+                    if !consensus {
+                        return Err(format!("batch {bi}: the node dialled a validator's announced address with the gossip endpoint"));
+                    }
+                }
+                if got.len() > expect.len() {
+                    return Err(format!("batch {bi}: more dials than address changes: expected {expect:?}, observed {got:?}"));
+                }
+                if got.len() < expect.len() {
+                    st.class("dial_not_seen_within_5s(not judged)");
+                    // the loop may still dial later: forget what it holds so that the late dial is expected
+                    return Ok(());
+                }
+                dials += got.len() as u64;
+                // outbound pool of the validator network: only identities that proved themselves at an address of theirs
+                let pool = node.state().verif_consensus_outbound().unwrap_or_default();
+                for k in pool {
+                    if k == keys[0].public() {
+                        continue;
+                    }
+                    let id = keys.iter().position(|x| x.public() == k);
+                    let ok = id.map(|id| proven.lock().unwrap().iter().any(|(p, li)| *p == id && ever.contains(&(id, *li)))).unwrap_or(false);
+                    if !ok {
+                        return Err(format!("batch {bi}: the outbound pool of the validator network lists identity {id:?}, which nobody proved at an address announced by that validator"));
+                    }
+                }
+            }
+            st.count("batches_acknowledged", accepted);
+            st.count("batches_refused", refused);
+            st.count("dials_observed", dials);
+            st.count("redirections", redirected);
+            st.count("identities_proven_by_responders", proven.lock().unwrap().len() as u64);
+            if dials >= 2 && (redirected > 0 || refused > 0) {
+                st.nontrivial(common::fingerprint(case));
+            }
+            st.sample(|| serde_json::to_value(case).unwrap());
+            Ok(())
+        })
+        .await;
+        res
+    })
+}
+
 pub fn main(env: &Env) -> i32 {
     if let Mode::Replay(path) = env.mode() {
         let (part, case) = Env::read_replay(&path);
@@ -538,6 +809,7 @@ pub fn main(env: &Env) -> i32 {
             "convergence" => common::replay_case::<ConvCase>(case, check_conv),
             "announce_threads" => common::replay_case::<RaceCase>(case, check_race),
             "live_push" => common::replay_case::<Case>(case, check_live),
+            "dial_target" => common::replay_case::<DialCase>(case, check_dial),
             p => Err(format!("unknown part {p}")),
         };
         return env.finish_replay(&path, r);
@@ -586,6 +858,18 @@ pub fn main(env: &Env) -> i32 {
         PartOpts { cases: env.tier.pick(300, 6_000), max_shrink_iters: 100, samples: 2 },
         || Choices::strategy(400).prop_map(|mut ch| gen_live(&mut ch)),
         check_live,
+    ));
+    parts.extend(common::run_regress::<DialCase>(env, "dial_target", check_dial));
+    parts.push(run_proptest(
+        env,
+        "dial_target",
+        "a LIVE validator node (real listener, real maintain_connection loops of the validator network, committee of 3) whose address book is fed by a scripted gossip peer with 1-5 batches naming six loopback listeners of the harness \
+         (members, outsiders, stale, forged, duplicated entries; announcements altered after signing name a trap listener); the listeners record every connection and answer by closing or by completing the real validator handshake as a member / another member / an outsider; \
+         oracle: after every batch the connections that reached the listeners are exactly one per member whose stored (newest valid) address differs from the one its dial loop holds, on the consensus endpoint - never the trap, a stale, forged or outsider's address; \
+         the validator network's outbound pool lists an identity only if it was proven at an address announced by that validator. A dial that does not show up within 5 s is not judged. Non-trivial = at least 2 dials and a redirection or a refused batch",
+        PartOpts { cases: env.tier.pick(240, 5_000), max_shrink_iters: 60, samples: 2 },
+        || Choices::strategy(420).prop_map(|mut ch| gen_dial(&mut ch)),
+        check_dial,
     ));
     env.finish(
         "exploration",
